@@ -23,6 +23,17 @@ def ot(b):
     return {k: v for k, v in b.items() if k in ("o", "t")}
 
 
+def norm6(b):
+    """outcome and trace, with CPython's own binding error counted as 'no method' (the generated entry point's
+    arity follows the whole method set)"""
+    o = b.get("o")
+    if o and o[0] in ("bind", "nomethod"):
+        o = ["nomethod"]
+    if o and o[0] == "ambiguous":
+        o = ["ambiguous"]
+    return {"o": o, "t": b.get("t")}
+
+
 def survivors(sc, upto):
     """chronological list of registrations not since unregistered (by definition object), before op `upto`"""
     regs = []
@@ -205,6 +216,7 @@ def worker(payload):
                     e["count"] += d
         snap14[0] = None
 
+    extra6 = []
     for i, (r, im) in enumerate(zip(res, impls)):
         flush14()
         w, sc, fw = keep[i]
@@ -338,6 +350,34 @@ def worker(payload):
                         known(o2, "D21:tiebreak-across-signatures", wit)
                     else:
                         o2["viol"].append({"law": "documented priority/specificity/recency rule", "spec": spec, "got": ik, **wit})
+            # ---------------- C06: methods that cannot take the call are irrelevant to it: a fresh function built from
+            # the applicable methods alone (same relative order) answers like a fresh function built from all of them
+            if (j % 2 == 0 or broke_at is not None) and len(set(regs)) == len(regs) and len(extra6) < 60 and \
+                    not any(p["name"] == kn and p["kind"] != "ko" for kn, _ in op[2] for t in regs for p in sc["defs"][t]["params"]):
+                try:
+                    rel = [t for t in regs if doc_accepts(sc, regs, sc["defs"][t], op[1], op[2], fw)]
+                except Exception:
+                    rel = regs
+                if rel and len(rel) < len(regs):
+                    sc_all = dict(sc)
+                    sc_all["ops"] = [["reg", t] for t in regs] + [op]
+                    sc_rel = dict(sc)
+                    sc_rel["ops"] = [["reg", t] for t in rel] + [op]
+                    try:
+                        r_all = FnWorld(w, sc_all).run()[-1]
+                        r_rel = FnWorld(w, sc_rel).run()[-1]
+                    except Exception as e:  # noqa
+                        r_all = r_rel = None
+                    if r_all is not None:
+                        o6 = orc("C06")
+                        o6["n"] += 1
+                        o6["nontrivial"] += 1
+                        bump("C06: calls compared with the applicable methods alone")
+                        ent_all = [fw.defs_by_id[e[0]]["body"] for e in r_all.get("raw", [])]
+                        # (a delegation forwards positionals only: with keywords in the call the inner call is another call)
+                        plain6 = all(bd[0] == "ret" or (not op[2] and bd[0] in ("callNext", "next") and bd[1] == [["p", q] for q in range(len(op[1]))]) for bd in ent_all)
+                        if plain6 and norm6(r_all) != norm6(r_rel):
+                            extra6.append((w, sc_all, sc_rel, r_all, r_rel, {**wit, "applicable": rel, "registered": regs}))
             # ---------------- C07, model independent: along a chain of call_next calls that forward the call's own
             # arguments, no method runs twice, priorities never go up, and a chain that falls off its end has
             # visited every applicable method
@@ -425,4 +465,26 @@ def worker(payload):
             j = len(im) - 1
             out["samples"].append({"op": sc["ops"][j], "impl": strip(im[j]), "model": {k: v for k, v in r["ops"][j].items() if k in ("o", "t", "nres")}})
     flush14()
+    # ---- C06 (irrelevant methods): the differences found above, attributed with the model's help
+    if extra6:
+        res6 = run_driver([to_model(w_, x) for (w_, a_, b_, _, _, _) in extra6 for x in (a_, b_)])
+        for q, (w_, sc_all, sc_rel, r_all, r_rel, wit6) in enumerate(extra6):
+            ma, mb = res6[2 * q], res6[2 * q + 1]
+            o6 = orc("C06")
+            v = {"law": "a method that cannot take the call changes its outcome", "with_all": ot(r_all), "applicable_only": ot(r_rel), **wit6}
+            agree = "error" not in ma and "error" not in mb and norm6(ma["ops"][-1]) == norm6(r_all) and norm6(mb["ops"][-1]) == norm6(r_rel)
+            info = ma["ops"][-1] if "error" not in ma else {}
+            if agree and info.get("keylen") == 0:
+                key = "D9:zero-arguments-bypass-resolution"
+            elif agree and info.get("truncated"):
+                key = "D8b:keyword-given-positional-beyond-an-omitted-one"
+            elif agree and info.get("cc") is False:
+                key = "D1:levels-of-unrelated-types"
+            else:
+                key = None
+            if key:
+                e = o6["known"].setdefault(key, {"count": 0, "witness": v})
+                e["count"] += 1
+            else:
+                o6["viol"].append(v)
     return out
